@@ -14,11 +14,11 @@ def seq_program(rng, n_units):
     def log():
         nonlocal t
         t += 1
-        return {"k": "log", "tag": "L%d" % t}
+        return {"k": "log", "tag": "L%d" % t, "level": rng.choice(["info", "info", "info", "debug", "warning", "error", "exception"])}
 
     for _ in range(n_units):
         body.append(log())
-        k = rng.choice(["step", "steplog", "wait", "fstep", "child", "cb", "wfcb", "par", "map", "wfc", "invoke", "rsteplog", "rsteplog", "parwait", "parwait"])
+        k = rng.choice(["step", "steplog", "wait", "fstep", "child", "cb", "wfcb", "par", "map", "wfc", "invoke", "rsteplog", "rsteplog", "parwait", "parwait", "parmixed", "parmixed"])
         if k == "step":
             body.append({"k": "step", "val": rng.randrange(9)})
         elif k == "steplog":
@@ -32,6 +32,12 @@ def seq_program(rng, n_units):
             nb = rng.randrange(2, 7)
             body.append({"k": "par", "branches": [{"body": [{"k": "step", "val": b}, {"k": "step", "val": b + 10}, {"k": "wait", "s": 1}, {"k": "step", "val": b + 20}]}
                                                   for b in range(nb)], "cfg": {"preset": "all_completed"}})
+        elif k == "parmixed":  # the block suspends with some branches finished and others still pending
+            nb = rng.randrange(2, 5)
+            brs = [{"body": [{"k": "step", "val": b}]} if b % 2 == 0 else {"body": [{"k": "wait", "s": 1 + b}, {"k": "step", "val": b, "log": True}]} for b in range(nb)]
+            body.append({"k": rng.choice(["par", "map"]), "branches": brs, "cfg": {"preset": "all_completed"}})
+            if body[-1]["k"] == "map":
+                body[-1] = {"k": "map", "items": list(range(nb)), "per_item": brs, "body": [], "cfg": None}
         elif k == "fstep":
             body.append({"k": "try", "catch": "*", "body": {"k": "step", "script": [{"do": "fail", "cls": "ValueError", "msg": "x"}],
                                                                 "retry": {"kind": "preset", "name": "none"}}})
